@@ -237,7 +237,7 @@ func concretize(o *Obligation, seed int64, n int, dir string) ([]string, bool) {
 				}
 			}
 		}
-		cands = append(cands, g.as)
+		cands = append(cands, append(g.as, c.replayAssume...))
 	}
 	found := make(chan res, n)
 	var wg sync.WaitGroup
